@@ -80,6 +80,16 @@ def _check_rows(r, spec, sh, rows, trace, tag, calc_step):
         if not (min(cands) * (1 - 2e-5) <= row.mach <= max(cands) * (1 + 2e-5)) and v > 0:
             r.bad("C05:mach", f"{where}: mach {row.mach!r}, speed {v!r} fps / local speed of sound {c_here!r} fps = {cands[0]!r}")
             return
+        # ... and consistent with the atmosphere model's own speed of sound at the row's altitude (the row may be
+        # interpolated between two integration points, or lag one step: any altitude within one step's travel)
+        if v > 0:
+            dlt = 2 * calc_step + 0.05
+            cs = [atmo_obj.get_density_factor_and_mach_for_altitude(a0 + y + d_)[1] for d_ in (-dlt, -dlt / 2, 0.0, dlt / 2, dlt)]
+            lo_m, hi_m = v / max(cs), v / min(cs)
+            if not (lo_m * (1 - 1e-9) <= row.mach <= hi_m * (1 + 1e-9)):
+                r.bad("C05:mach:inconsistent-with-atmosphere-model", f"{where}: mach {row.mach!r}, but speed {v!r} fps over the atmosphere model's speed of sound "
+                      f"at the row's altitude ({a0 + y!r} ft +- {dlt!r}) gives {lo_m!r}..{hi_m!r}")
+                return
         # energy / ogw
         ke = (wgt / 7000.0 / 32.174) * v * v / 2.0
         e = row.energy >> pb.Energy.FootPound
